@@ -6,6 +6,7 @@ import Amgcl.Proofs.CPRPass
 import Amgcl.Proofs.CPRWeights
 import Amgcl.Proofs.CPRBlock
 import Amgcl.Proofs.C18Examples
+import Amgcl.Proofs.CPRWidths
 /-!
 # C18 — composite preconditioners realise their block formulas
 
@@ -415,6 +416,28 @@ theorem cpr_scalar_eq_block (Ab : CRS (Blk K)) (hs : Ab.sortedb = true) (B act :
 example : C18Ex.Abk.sortedb = true ∧ 2 ≤ C18Ex.Abk.nrows := C18Ex.Abk_ok
 example : (initScalar (expand 2 C18Ex.Abk) 2 (2 * 2)).App = (initBlock C18Ex.Abk 2 2).App :=
   (cpr_scalar_eq_block C18Ex.Abk C18Ex.Abk_ok.1 2 2 (by decide) C18Ex.Abk_ok.2).2.2.1
+
+/-- **the two passes of the `cpr` constructor agree on the row widths of `App`**: `first_scalar_pass(K, true)` counts the
+entries of every `App` row (`App->ptr`), the second pass of `init` then writes that many entries — for EVERY scalar input
+(unsorted rows, duplicates, any `block_size`, any `active_rows`), provided no diagonal block hit a zero pivot (the
+`assert` in `invert`).  So the second pass neither overruns the arrays sized by the first pass nor leaves a slot
+unwritten. -/
+theorem cpr_app_widths_consistent (A : CRS K) (B act : Nat) (hz : (initScalar A B act).zeroPivot = false) :
+    (initScalar A B act).appWidths =
+      (List.range (initScalar A B act).np).map (fun ip => ((initScalar A B act).App.row ip).length) := by
+  simp only [initScalar] at hz ⊢
+  apply List.map_congr_left
+  intro ip hip
+  have hlt := List.mem_range.mp hip
+  have hz' : (passRow A B (if act = 0 then A.nrows else act) ip true).zeroPivot = false := by
+    rw [List.any_eq_false] at hz
+    simpa using hz ip hip
+  rw [passRow_cnt_eq_appRow_length A B _ ip
+    (weights B (passRow A B (if act = 0 then A.nrows else act) ip true)) hz']
+  simp [CRS.row, Array.getD, hlt]
+
+example : (initScalar (expand 2 C18Ex.Abk) 2 (2 * 2)).zeroPivot = false ∧
+    (initScalar (expand 2 C18Ex.Abk) 2 (2 * 2)).appWidths ≠ [] := by decide +kernel
 
 end cpr
 
